@@ -101,6 +101,12 @@ impl<Term: Terminal> Completer<Term> for CicadaCompleter {
 
         // empty completions should fail back to path-completion,
         // so that `$ make generate /path/to/fi<Tab>` still works.
+        if for_cd(line) {
+            // (after `cd` that means directories only, e.g. for a directory
+            // name that merely looks like a variable: `cd '$dir<Tab>`)
+            let cpl = Arc::new(path::CdCompleter);
+            return cpl.complete(word, reader, start, _end);
+        }
         let cpl = Arc::new(path::PathCompleter);
         cpl.complete(word, reader, start, _end)
     }
